@@ -99,6 +99,8 @@ structure Topic where
   hasSupd : Bool := true                    -- Topic.supd exists: created by initTopicGrp (load) and initTopicNewGrp
   isChan : Bool := false                    -- channel-enabled group topic
   chanSess : List Sid := []                 -- the attached sessions which are attached as channel readers (perSessionData.isChanSub)
+  isMe : Bool := false                      -- a user's `me` topic (kept under the user's name)
+  perSubs : List (String × Bool × Bool) := []   -- `me` only: contact ↦ (last known online, enabled) (Topic.perSubs)
   deriving DecidableEq, Repr, Inhabited
 
 structure User where
@@ -114,6 +116,7 @@ structure Sess where
   lvl : Level
   bg : Bool := false
   subs : List TName := []
+  out : Bool := false              -- logged out by the server (initTopicMe could not read the account)
   deriving DecidableEq, Repr
 
 structure World where
@@ -123,6 +126,7 @@ structure World where
   live : List Topic := []                   -- loaded topics
   maxSubs : Nat := 32
   nextT : Nat := 1
+  meSubs : List SubRow := []                -- the users' subscriptions to their own `me` topic (no topic row goes with them)
   deriving DecidableEq, Repr
 
 /-- a presence message published through the hub to the sessions attached to a topic (presSubsOnline) -/
@@ -135,6 +139,11 @@ structure PresMsg where
   singleUser : Uid := ""
   excludeUser : Uid := ""
   skipSid : Sid := ""
+  -- notifications for a user's `me` topic (Model/TopicMe.lean)
+  skipTopic : TName := ""         -- sessions attached to this topic have been told there: skipped on `me`
+  wantReply : Bool := false
+  isInfo : Bool := false          -- an {info} (read/recv/kp of somebody else), not a {pres}
+  infoFrom : Uid := ""
   deriving Repr
 
 /-- request context -/
@@ -148,6 +157,7 @@ structure Ctx where
   crashK : Nat := 0                         -- the process dies right after the crashK-th call (0 = never)
   snap : Option (List TopicRow) := none     -- what the database holds at the crash point
   routed : List (TName × PresMsg) := []     -- presence handed to hub.routeSrv: delivered after the handler returns
+  off : List (TName × PresMsg) := []        -- presence and info addressed to users' `me` topics (pres*Offline): Model/TopicMe.lean
   deriving Repr
 
 /-! ### small helpers -/
@@ -198,6 +208,9 @@ def Topic.inactive (t : Topic) : Bool := t.paused || t.deleted
 /-! ### context operations -/
 
 def Ctx.emit (c : Ctx) (s : Sid) (f : String) : Ctx := { c with frames := c.frames ++ [(s, f)] }
+
+/-- a notification for a user's `me` topic, queued like `routed`; nothing in the group handlers reads it back -/
+def Ctx.offq (c : Ctx) (rcpt : TName) (p : PresMsg) : Ctx := { c with off := c.off ++ [(rcpt, p)] }
 
 /-- One adapter call: logged; fails (before taking effect) when it is the failK-th call of the request. After the
 crashK-th call completes the database content is remembered as the crash snapshot (the caller passes the effect). -/
